@@ -136,6 +136,37 @@ def run(ctx):
                                                                             'reachable although tool_choice may bar the tool' if not ok else 'guarded by a test on a different value'), line=r.line)
 
     # restrictive choices fail closed
+    # ---------------------------------------------------------------- C16.9
+    ctx.rule('C16.9', 'the bar is the configured one, for the whole run: the ToolChoiceEnforcement that allows_function is asked on has exactly one definition in the agent loop, it is '
+             'computed from the tool_choice of the configuration (OpenResponsesConfig.tool_choice), and that definition is not inside the request loop. An enforcement refreshed from what '
+             'a request happened to send (follow-up requests may relax a forcing choice so that the model can finish) executes tools the configuration bars.')
+    from ..prov import fields_read
+    n9 = 0
+    for a in allows:
+        recv = f.root_local(a.args[0], through_calls=(r'::deref$', r'::as_ref$'))
+        if recv is None:
+            continue
+        n9 += 1
+        ds = [d for d in f.defs(recv) if d[2] in ('call', 'rv')]
+        okd, whyd = True, 'one definition, from the configured tool_choice, before the request loop'
+        if len(ds) != 1:
+            okd, whyd = False, 'the enforcement local has %d definitions: it is re-derived while the run goes on' % len(ds)
+        else:
+            bi, si, kind, payload, _ln = ds[0]
+            if kind != 'call' or not re.search(r'ToolChoiceEnforcement::from_(tool_choice|value)$', Site(f, bi, payload).callee):
+                okd, whyd = False, 'the enforcement is not built by ToolChoiceEnforcement::from_tool_choice / from_value'
+            else:
+                site = Site(f, bi, payload)
+                flds = set()
+                for ar in site.args:
+                    flds |= fields_read(f, ar, 'ripd::provider_openresponses::OpenResponsesConfig')
+                if 'tool_choice' not in flds:
+                    okd, whyd = False, 'the enforcement is built from something other than the configuration\'s tool_choice'
+                elif f.in_loop(bi):
+                    okd, whyd = False, 'the enforcement is rebuilt inside the request loop'
+        ctx.ob('C16.9', f, 'bar-from-config-once', okd, 'tool_choice enforcement: %s' % whyd, line=a.line)
+    ctx.floor('C16.9', 'allows_function checks with a resolvable receiver', n9, 1)
+
     ctx.rule('C16.6', 'a restrictive tool_choice fails closed: in ToolChoiceEnforcement::from_value, once the choice object has type "function" or "allowed_tools" (true edge of the string comparison), no path constructs AllFunctions — malformed or unknown entries narrow the allow-list, they never widen it.')
     fv = P.fn('ripd::session::ToolChoiceEnforcement::from_value')
     ctx.touch(fv)
